@@ -18,7 +18,7 @@ RULE = (
     "distinct = distinct cell tuples / distinct sequence shapes"
 )
 ASSUMPTIONS = ["EMPTY_ACK_DELAY is 0.1 s (read from the library at run time)", "simulated one-way latency 1 ms"]
-REQUIRED_MONITORS = {"table_cell": 500, "table_cell_busy_peer": 100, "con_never_to_multicast": 500, "sequence": 50, "noninterference": 50}
+REQUIRED_MONITORS = {"table_cell": 500, "table_cell_busy_peer": 100, "mid_boundary": 100, "con_never_to_multicast": 500, "sequence": 50, "noninterference": 50}
 EXHAUSTIVE = {"single_message_table": "types x codes x token known/unknown x unicast/multicast x delays x No-Response x result class as enumerated by cells()"}
 
 CON, NON, ACK, RST = 0, 1, 2, 3
@@ -277,7 +277,7 @@ def cell_key(cell):
     return "%s-%s%s" % ("CON NON ACK RST".split()[typ], cls, extra)
 
 
-def run_cell(cell, seed, rep, case, busy=False):
+def run_cell(cell, seed, rep, case, busy=False, mid=0x7001):
     from harness import scenario, simnet, refcodec as rc
     import asyncio
     from aiocoap.numbers.constants import TransportTuning
@@ -293,7 +293,7 @@ def run_cell(cell, seed, rep, case, busy=False):
         token = node.known_tokens[0] if (known and node.known_tokens) else b"\xaa\xbb\xcc"
         if known and not node.known_tokens:
             box["inconc"] = "node's request never reached the peer"
-        msg = node.build(cell, 0x7001, token, rc)
+        msg = node.build(cell, mid, token, rc)
         dst = simnet.addr(MC, 5683) if mc else node.S
         t0 = loop.time()
         node.peer.send(dst, msg)
@@ -421,6 +421,19 @@ def run_shard(shard, rep, only=None):
         run_cell(cell, shard["seed"] * 7919 + i, rep, case)
         if idx == 0 and i < 48 and i % 16 == 0:
             rep.sample({"class": "table-cell", "cell": repr(cell), "expected": repr(expected(cell, ead))})
+    # ---- message-ID boundary values (0 and 0xFFFF) for every judged unicast cell with an immediate / slow handler ----
+    mid_cells = [c for c in allc if expected(c, ead) not in (None, "mc-non") and not c[3] and c[4] in (0.0, 1.0) and c[5] in (None, 26)]
+    k = 0
+    for cell in mid_cells:
+        for mid in (0, 0xFFFF):
+            k += 1
+            if k % of != idx:
+                continue
+            case = ["mid", k]
+            if only is not None and only != case:
+                continue
+            run_cell(cell, shard["seed"] * 7919 + 90000 + k, rep, case, mid=mid)
+            rep.monitor("mid_boundary")
     # ---- the same table against a node that has an unacknowledged CON in flight to the peer and one held back ----
     busy_cells = [c for c in allc if expected(c, ead) not in (None, "mc-non") and not c[3] and (c[4] in (0.0, 1.0))]
     for i, cell in enumerate(busy_cells):
